@@ -3,13 +3,20 @@ From Coq Require Import List ZArith NArith Bool.
 From Kardia Require Import Base.Int64 C13.Model C13.ProofsSound C13.ProofsHeader.
 Import ListNotations.
 
-(** Full uniqueness of the block id: two blocks that pass ValidateBasic and share the block hash have
-    equal transaction lists, equal commit signatures and equal evidence (up to collisions of H, K and
-    of the transaction trie).  Proved so far: equality of the header and of the three commitments
-    (C13_same_hash_same_commitments_partial) and injectivity of the Merkle root
-    (C13_merkle_root_injective); missing: injectivity of the CommitSig encoder, of DeriveSha (C07),
-    and the binding of the commit's height/round/block id, which needs VerifyCommit (C02) and the
-    chain state and is false at the initial height (C13_commit_meta_bound_refuted). *)
+(** Full uniqueness of the block id, unconditionally: two blocks that pass ValidateBasic and share the
+    block hash have equal transaction lists, equal commit signatures and equal evidence (up to
+    collisions of H, K and of the transaction trie).
+    Proved in Properties.v under the well-formedness side conditions (wf_block: what the Go types can
+    hold) and with "or a preimage of the all-zero hash" among the alternatives:
+    C13_same_hash_same_body (header, transactions, evidence, signatures), C13_unique_id_partial (for two
+    blocks acceptable against one chain state also the height and block id of the last commit),
+    C13_cache_sound (the same through the executor's cache).
+    Still missing for the statement below as it stands: it has no well-formedness hypotheses and no
+    zero-preimage alternative (an empty evidence / signature list hashes to the zero hash by
+    convention, so a list whose Merkle root is all-zero would be a counterexample that is not a
+    collision); the injectivity of DeriveSha is a hypothesis (C07); the ROUND of the last commit is
+    bound only by the signatures (VerifyCommit, C02/C11) and at the initial height nothing binds round
+    and block id of the empty commit (C13_commit_meta_bound_refuted). *)
 Definition C13_unique_id_statement : Prop :=
   forall (H K : bytes -> bytes) (TxRoot : list bytes -> bytes),
     (forall x, length (H x) = 32) ->
